@@ -28,7 +28,7 @@ SIG_LOOK = "parse_tree: node of a selected rule inside a selected at<> spans bey
 
 TRANSFORMS = ["store_content", "remove_content", "fold_one", "discard_empty"]
 HSELS = ["h%d" % i for i in range(8)]
-ACT_CPP = {"0": "vh::act0", "5": "vh::act5", "t": "c12::act_t", "mi": "vh::act0"}
+ACT_CPP = {"0": "vh::act0", "5": "c12::act_5", "t": "c12::act_t", "mi": "vh::act0"}
 CTL_CPP = {"0": "c12::ctl_in", "5": "c12::ctl_in", "t": "c12::ctl_in", "mi": "c12::ctl_mi"}
 
 
@@ -44,7 +44,7 @@ def c12_family(quick=False):
     out = []
     A, B, C = "one< 'a' >", "one< 'b' >", "one< 'c' >"
     # unselected chains of depth k around a selected rule: is_leaf< 8 > boundary; the chain fails AFTER X matched
-    for k in ((1, 7, 8, 9, 12) if quick else (1, 5, 6, 7, 8, 9, 10, 12)):
+    for k in ((8, 9, 12) if quick else (1, 5, 6, 7, 8, 9, 10, 12)):
         for bottom in ("seq< X, %s >" % B, "seq< at< X >, X, %s >" % B, "seq< opt< X >, star< %s, X >, %s >" % (C, B)):
             rules = [("X", A)]
             rules.append(("W%d" % k, bottom))
@@ -55,7 +55,7 @@ def c12_family(quick=False):
             out.append(G(rules, "sor< W1, seq< X, %s >, success >" % C, ["deep", "k%d" % k], mix={"X": "store_content", "G": "store_content"}))
     # the deep part SUCCEEDS and the failure comes at the top of the chain: every unselected rule between the
     # selected match and the failing rule is more than 8 levels away from it only at the top
-    for k in ((8, 10, 12) if quick else (7, 8, 9, 10, 11, 13)):
+    for k in ((9, 11) if quick else (7, 8, 9, 10, 11, 13)):
         for top, bottom in (("seq< W2, %s >" % B, "seq< X >"), ("seq< at< W2 >, W2, %s >" % B, "seq< opt< %s >, X >" % C)):
             rules = [("X", A), ("W%d" % k, bottom)]
             for i in range(k - 1, 1, -1):
@@ -128,7 +128,7 @@ def plan(tier, seed):
     rnd = random.Random(seed * 7919 + 12)
     fam = c12_family(tier == "quick")
     sysg = [g for g in corpus.systematic(tier) if usable(g)]
-    want = 36 if tier == "quick" else 170
+    want = 30 if tier == "quick" else 170
     rnd.shuffle(sysg)
     # keep every template represented
     seen, first, rest = set(), [], []
@@ -152,7 +152,7 @@ def plan(tier, seed):
                 g.acts.append("mi")
         nh = 1 if tier == "quick" else 2
         hs = [HSELS[(i * 3 + j * 5 + seed) % 8] for j in range(nh)]
-        base = ["all", "named", "mix"] if ("c12" in g.tags or tier != "quick" or i % 3 == 0) else ["all", "mix"]
+        base = ["all", "named", "mix"] if ((("c12" in g.tags) and ("deep" not in g.tags)) or tier != "quick" or i % 3 == 0) else ["all", "mix"]
         g.sels = base + sorted(set(hs))
     return grams
 
@@ -171,7 +171,7 @@ def configs(g):
     """(sel, act) pairs run through parse_tree::parse"""
     out = []
     for act in g.acts:
-        sels = g.sels if act == "0" else [g.sels[0], g.sels[2], g.sels[-1]]
+        sels = g.sels if act == "0" else sorted(set([g.sels[0], g.sels[min(2, len(g.sels) - 1)], g.sels[-1]]))
         for s in sels:
             out.append((s, act))
     return out
@@ -216,6 +216,10 @@ def prepare_common():
     har_hash = vlib.file_hash(os.path.join(hd, "vharness.hpp"), os.path.join(hd, "c12_harness.hpp"), os.path.join(hd, "c12_main.cpp"))
     md = os.path.join(vlib.BUILD, "corpus", "c12main-" + vlib.sha(inc_hash, har_hash, vlib.CXX))
     main_o = os.path.join(md, "c12_main.o")
+    try:
+        os.utime(md)          # other checks prune the oldest cache directories
+    except OSError:
+        pass
     if not os.path.exists(main_o):
         os.makedirs(md, exist_ok=True)
         tmp = main_o + ".%d.tmp" % os.getpid()
@@ -253,6 +257,11 @@ def run_chunk(common, ch, maxlen):
         tmp = exe + ".%d.tmp" % os.getpid()
         cmd = [vlib.CXX] + CXXFLAGS + ["-I" + os.path.join(vlib.REPO, "include"), "-I" + hd, tu, common["main_o"], "-o", tmp]
         p = subprocess.run(cmd, stdout=subprocess.PIPE, stderr=subprocess.STDOUT, text=True, errors="replace", timeout=1800)
+        if p.returncode != 0 and not os.path.exists(common["main_o"]):
+            # the shared object was pruned from the cache by a concurrent check: rebuild it and retry once
+            common.update(prepare_common())
+            cmd[-3] = common["main_o"]
+            p = subprocess.run(cmd, stdout=subprocess.PIPE, stderr=subprocess.STDOUT, text=True, errors="replace", timeout=1800)
         if p.returncode != 0:
             errs = [l for l in p.stdout.split("\n") if "error" in l][:6]
             R["error"] = "compile failed: " + " ;; ".join(errs)[:3000]
